@@ -75,8 +75,15 @@ func runC42(c *Ctx) {
 	rel := "pipeline"
 	// (1) who may call applyFunc / applyItem
 	var applyItem, maybeApply, pws, applyPending *ssa.Function
-	applyItem = c.SSAFunc(rel, "ApplyStage.applyItem")
+	// applyItem may be folded into maybeApply: the guarded site is then the callback call itself
+	if o := c.FuncObjOpt(rel, "ApplyStage.applyItem"); o != nil {
+		applyItem = c.SSAOf(o)
+	}
 	maybeApply = c.SSAFunc(rel, "ApplyStage.maybeApply")
+	applyItemInlined := applyItem == nil
+	if applyItemInlined {
+		applyItem = maybeApply
+	}
 	pws = c.SSAFunc(rel, "ApplyStage.ProcessWithStatus")
 	applyPending = c.SSAFunc(rel, "ApplyStage.applyPending")
 	if applyItem == nil || maybeApply == nil || pws == nil || applyPending == nil {
@@ -92,7 +99,7 @@ func runC42(c *Ctx) {
 				c.Check(fn == applyItem && !inLoop(ci.Block()), "apply-only-good-blocks", ssaFuncKey(fn)+":applyFunc", ci.Pos(), "the apply callback is invoked once, from applyItem", "the apply callback is invoked from "+ssaFuncKey(fn)+" (or in a loop): a block can be applied more than once or outside the guarded path")
 				c.Check(trace(cc.Args[0]) == "p2", "apply-only-good-blocks", ssaFuncKey(fn)+":applyFunc:item", ci.Pos(), "applied to the item passed in", "the apply callback receives "+shortArg(trace(cc.Args[0])))
 			}
-			if cc.StaticCallee() == applyItem {
+			if !applyItemInlined && cc.StaticCallee() == applyItem {
 				c.Check(fn == maybeApply, "apply-only-good-blocks", ssaFuncKey(fn)+":applyItem", ci.Pos(), "applyItem is reached only through maybeApply", "applyItem is called from "+ssaFuncKey(fn)+", bypassing the decode/validation guards")
 			}
 			if cc.StaticCallee() == maybeApply {
@@ -102,8 +109,16 @@ func runC42(c *Ctx) {
 	}
 	c.Check(nApply == 1, "apply-only-good-blocks", rel+":applyFunc-sites", applyItem.Pos(), "one call site of the apply callback", fmt.Sprintf("%d call sites of the apply callback", nApply))
 	for _, ci := range allCalls(maybeApply) {
-		if ci.Common().StaticCallee() != applyItem {
+		if !applyItemInlined && ci.Common().StaticCallee() != applyItem {
 			continue
+		}
+		if applyItemInlined {
+			cc := ci.Common()
+			if cc.IsInvoke() || cc.StaticCallee() != nil || !strings.HasSuffix(trace(cc.Value), "applyFunc<p0") {
+				continue
+			}
+			// the callback call stands for applyItem(ctx, item): (receiver, ctx, item) positions
+			ci = inlinedApplySite{ci}
 		}
 		for _, g := range []struct{ name, fact string }{
 			{"no-decode-error", "call:pipeline.(*BlockItem).DecodeError(p2) == nil"},
@@ -928,3 +943,14 @@ func init() {
 }
 
 var debugC42 func(c *Ctx)
+
+// inlinedApplySite presents the apply callback call as if it were the applyItem(recv, ctx, item) call it replaced, so
+// that the guard rules read the applied item at argument position 2.
+type inlinedApplySite struct{ ssa.CallInstruction }
+
+func (s inlinedApplySite) Common() *ssa.CallCommon {
+	cc := s.CallInstruction.Common()
+	args := []ssa.Value{nil, nil}
+	args = append(args, cc.Args...)
+	return &ssa.CallCommon{Value: cc.Value, Args: args}
+}
